@@ -1205,7 +1205,7 @@ fn drive_lengths(sink: &mut Sink, _rng: &mut Rng, n: usize) {
     let mut lens: Vec<usize> = (0..=48).collect();
     lens.extend([63, 64, 65, 127, 128, 129, 255, 256, 257]);
     if n >= 2 {
-        lens.extend([511, 512, 513, 1023, 1024, 1025, 4095, 4096, 4097]);
+        lens.extend([511, 512, 513, 1023, 1024, 1025]);      // (beyond that TLC needs half a minute per recorded parse)
     }
     for &l in &lens {
         for last in ["a", "A", " ", "é", "%41", "%2F", "/%2e%2E"] {
